@@ -30,7 +30,7 @@ Lemma append_attached_frame p c s :
   only1 s (fst (append_attached p c s)) p /\ keeps_ptrs s (fst (append_attached p c s)) p.
 Proof.
   unfold append_attached. cbn [mbind node_of lift].
-  destruct (admission_checks _ _) as [[]|y]; [|split; [apply only1_refl|repeat split]].
+  destruct (acceptance_checks _ _) as [[]|y]; [|split; [apply only1_refl|repeat split]].
   destruct (oid_eqb _ _).
   - unfold do_append, modify. cbn [fst]. split; [apply only1_setn|]. unfold keeps_ptrs. now rewrite getn_setn_same.
   - destruct (oid_eqb _ _).
@@ -139,7 +139,7 @@ Proof.
   destruct (is_valid_child t _ _) as [[]|y]; cbn [negb mbind node_of lift]; try discriminate.
   unfold pointing. rewrite Hp. cbn [oid_eqb]. rewrite Nat.eqb_refl. cbn [orb negb].
   unfold append_attached. cbn [mbind node_of lift].
-  destruct (admission_checks _ _) as [[]|y]; [|discriminate].
+  destruct (acceptance_checks _ _) as [[]|y]; [|discriminate].
   rewrite Hp. cbn [oid_eqb]. rewrite Nat.eqb_refl. unfold do_append, modify.
   set (s1 := setn s p _).
   assert (E1 : n_tidx (getn s1 p) = tidx_removed (n_name (getn s c)) c (n_tidx (getn s p)))
